@@ -385,7 +385,7 @@ distinct = distinct (block subset, gate class, word size, scale==0) shapes, plus
     }
 
     // ---- random messages ---------------------------------------------------------------------------
-    let total: u64 = ctx.tier.pick(60_000, 3_000_000);
+    let total: u64 = ctx.tier.pick(200_000, 3_000_000);
     par_cases(ctx, total, |i, obs| {
         let mut rng = Rng::derive(seed, 7, 10_000 + i);
         let subset = if i < 1024 { i as u16 } else { rng.below(1024) as u16 };
